@@ -2,12 +2,28 @@
 // Reads script lines {"op":"StaticIf","a":{"c":bool,"form":"tmpl"|"tag","t":{"val":n,"rt":kind},"f":{...}}}
 // on stdin, performs the call on the real static_if and prints the line extended with
 // "res": {val, rt, tcalls, fcalls}.  No oracle: it executes and prints what it observed.
+// The form static_if(std::integral_constant<bool, c>(), tf, ff) is compiled only with -DHAVE_TAG_FORM (the runner probes
+// whether these overloads are still public; the statement only names static_if).  A call that does not return is ended
+// by a per-line CPU / wall-clock watchdog (Crash line).
 #include <cstdio>
 #include <iostream>
 #include <string>
 #include <type_traits>
 #include "xtl/xmeta_utils.hpp"
 #include "vjson.hpp"
+#include <sys/time.h>
+
+static void on_watchdog(int sig)
+{
+    vj::crash_line(sig == SIGPROF ? "timeout: the call did not return within 3 s of CPU time" : "timeout: the call did not return within 90 s");
+    _exit(0);
+}
+static void arm_watchdog(long cpu_s, long wall_s)
+{
+    struct itimerval cpu = {{0, 0}, {cpu_s, 0}}, wall = {{0, 0}, {wall_s, 0}};
+    setitimer(ITIMER_PROF, &cpu, nullptr);
+    setitimer(ITIMER_REAL, &wall, nullptr);
+}
 
 namespace
 {
@@ -68,12 +84,17 @@ namespace
         result r;
         if (tag_form)
         {
+#ifndef HAVE_TAG_FORM
+            std::fprintf(stderr, "script: form tag in a build without -DHAVE_TAG_FORM\n");
+            std::exit(3);
+#else
             using R = decltype(xtl::mpl::static_if(std::integral_constant<bool, C>(), tf, ff));
             R v = xtl::mpl::static_if(std::integral_constant<bool, C>(), tf, ff);
             r.val = to_num(v);
             r.rt = kind_name<R>::get();
             r.aliases = std::is_reference<R>::value &&
                         (static_cast<const void*>(&v) == static_cast<const void*>(C ? &ct.value : &cf.value));
+#endif
         }
         else
         {
@@ -111,11 +132,14 @@ namespace
 int main()
 {
     vj::install_crash_handlers();
+    std::signal(SIGPROF, on_watchdog);
+    std::signal(SIGALRM, on_watchdog);
     std::string line;
     while (std::getline(std::cin, line))
     {
         if (line.empty()) continue;
         vj::value e = vj::parse(line);
+        arm_watchdog(3, 90);
         if (e.str("op") != "StaticIf")
         {
             std::fprintf(stderr, "script: unknown op %s\n", e.str("op").c_str());
@@ -138,6 +162,8 @@ int main()
         res.kv("val", r.val).ks("rt", rt).kv("tcalls", ct.calls).kv("fcalls", cf.calls);
         std::string body = line.substr(0, line.find_last_of('}'));
         std::printf("%s,\"res\":%s}\n", body.c_str(), res.obj().c_str());
+        std::fflush(stdout);
     }
+    arm_watchdog(0, 0);
     return 0;
 }
